@@ -1,4 +1,5 @@
 import SqlVerif.Model.Tok
+import SqlVerif.Model.Escape
 /-!
 AST fragment of the expression-parser model and its canonical S-expression
 (the same rendering as `expr_sexp` in `rust/harness/src/c04.rs`).
@@ -164,7 +165,7 @@ def atomSexp (k : AtomKind) (toks : List Tok) : String :=
   | .str, [.sqs s] => "(str " ++ hx s ++ ")"
   | .dstr, [.dqs s] => "(dstr " ++ hx s ++ ")"
   | .ph, [.placeholder s] => "(ph " ++ hx s ++ ")"
-  | .ph2, [t, .word v _ _] => "(ph " ++ hx ((t.display.getD []) ++ v) ++ ")"
+  | .ph2, [t, .word v q _] => "(ph " ++ hx ((t.display.getD []) ++ ((SqlVerif.Escape.showIdent ⟨v, q⟩).getD v)) ++ ")"
   | .ph2, [t, .number v _] => "(ph " ++ hx ((t.display.getD []) ++ v) ++ ")"
   | .boolTrue, _ => "(bool 1)"
   | .boolFalse, _ => "(bool 0)"
